@@ -388,6 +388,7 @@ func checkC13(c *Ctx, r *Report) {
 	listenerNotLeaked(c, r, "C13.R4.listener-not-leaked")
 	shutdownReleased(c, r, "C13.R2.shutdown-released")
 	shutdownUnbounded(c, r, "C13.R4.shutdown-unbounded")
+	writeDeadline(c, r, "C13.R3.write-deadline")
 }
 
 func fnDisplay(f *ssa.Function) string {
